@@ -5,6 +5,7 @@ replaying every logged `_calcMassBalance` call of real runs through the model (t
 α is any linearly ordered field.
 -/
 import KawinV.Model.MassBalance
+import KawinV.Gen.C01MassBalance
 import Mathlib.Tactic.Ring
 import Mathlib.Tactic.Linarith
 import Mathlib.Tactic.FieldSimp
@@ -178,6 +179,67 @@ theorem recordRun_length (minDens minComp : α) (x0 : List α)
   induction steps with
   | nil => simp [recordRun]
   | cons st rest ih => obtain ⟨prev, ins⟩ := st; simp [recordRun, ih]
+
+/-! ### the same laws for the mass balance REGENERATED from the source (tie 1)
+
+`KawinV.Gen.C01.mb_*` are produced on every run by executing the real
+`PrecipitateModel._calcMassBalance` on symbolic state (2 phases × 2 elements × 3 size classes,
+populated / unsaturated / unclamped path, asserted at generation time).  The theorems below are
+about what the code computes NOW; a change of the formula changes the definitions and the proofs
+no longer check. -/
+
+section generated
+open KawinV.Gen.C01
+variable [Trans α]
+variable (N R : Nat → Nat → α) (xb : Nat → Nat → Nat → α) (vma : α) (vmb vfac x0 : Nat → α)
+
+/-- the recorded matrix composition is the balance quotient of the recorded contents and fractions -/
+theorem gen_comp0_eq :
+    mb_comp0 N R xb vma vmb vfac x0 =
+      (x0 0 - (mb_fc00 N R xb vma vmb vfac x0 + mb_fc10 N R xb vma vmb vfac x0)) /
+        (1 - (mb_vf0 N R xb vma vmb vfac x0 + mb_vf1 N R xb vma vmb vfac x0)) := by
+  simp only [mb_comp0, mb_vf0, mb_vf1, mb_fc00, mb_fc10, npow] <;> ring
+
+theorem gen_comp1_eq :
+    mb_comp1 N R xb vma vmb vfac x0 =
+      (x0 1 - (mb_fc01 N R xb vma vmb vfac x0 + mb_fc11 N R xb vma vmb vfac x0)) /
+        (1 - (mb_vf0 N R xb vma vmb vfac x0 + mb_vf1 N R xb vma vmb vfac x0)) := by
+  simp only [mb_comp1, mb_vf0, mb_vf1, mb_fc01, mb_fc11, npow] <;> ring
+
+/-- **balance, regenerated**: for both solutes, initial content = matrix content × matrix fraction
++ content of both precipitate phases. -/
+theorem gen_balance
+    (hsat : 1 - (mb_vf0 N R xb vma vmb vfac x0 + mb_vf1 N R xb vma vmb vfac x0) ≠ 0) :
+    x0 0 = mb_comp0 N R xb vma vmb vfac x0 * (1 - (mb_vf0 N R xb vma vmb vfac x0 + mb_vf1 N R xb vma vmb vfac x0))
+            + (mb_fc00 N R xb vma vmb vfac x0 + mb_fc10 N R xb vma vmb vfac x0) ∧
+    x0 1 = mb_comp1 N R xb vma vmb vfac x0 * (1 - (mb_vf0 N R xb vma vmb vfac x0 + mb_vf1 N R xb vma vmb vfac x0))
+            + (mb_fc01 N R xb vma vmb vfac x0 + mb_fc11 N R xb vma vmb vfac x0) := by
+  rw [gen_comp0_eq, gen_comp1_eq]
+  constructor <;> (rw [div_mul_cancel₀ _ hsat]; ring)
+
+/-- **volume fraction, regenerated**: (Vα/Vβ)·volumeFactor·Σ Nᵢ Rᵢ³ -/
+theorem gen_volFrac :
+    mb_vf0 N R xb vma vmb vfac x0 =
+      vma / vmb 0 * vfac 0 * (N 0 0 * R 0 0 ^ 3 + N 0 1 * R 0 1 ^ 3 + N 0 2 * R 0 2 ^ 3) := by
+  simp only [mb_vf0, npow]; ring
+
+/-- **content is the PSD sum, regenerated**: Σᵢ (Vα/Vβ·volumeFactor·Rᵢ³)·Nᵢ·½(xβᵢ + xβᵢ₊₁) -/
+theorem gen_fconc :
+    mb_fc00 N R xb vma vmb vfac x0 =
+      vma / vmb 0 * vfac 0 * (N 0 0 * R 0 0 ^ 3 * ((xb 0 0 0 + xb 0 1 0) / 2)
+        + N 0 1 * R 0 1 ^ 3 * ((xb 0 1 0 + xb 0 2 0) / 2) + N 0 2 * R 0 2 ^ 3 * ((xb 0 2 0 + xb 0 3 0) / 2)) := by
+  simp only [mb_fc00, npow]; ring
+
+/-- **statistics are moments, regenerated** -/
+theorem gen_density : mb_dens0 N R xb vma vmb vfac x0 = N 0 0 + N 0 1 + N 0 2 := by
+  simp only [mb_dens0, npow]; ring
+
+theorem gen_ravg :
+    mb_ravg0 N R xb vma vmb vfac x0 =
+      (N 0 0 * R 0 0 + N 0 1 * R 0 1 + N 0 2 * R 0 2) / (N 0 0 + N 0 1 + N 0 2) := by
+  simp only [mb_ravg0, npow]; ring
+
+end generated
 
 /-! ### non-vacuity -/
 
